@@ -9,12 +9,21 @@ from fractions import Fraction
 import hgxv
 
 RULE = ("sources: random histories (add_node/add_edge with re-insertion in permuted node order, remove_edge, set_weight, "
-        "set_*_metadata, set_attr_*) on 3-6 nodes (int, shifted-int or str labels), weighted and unweighted, Hypergraph and "
-        "DirectedHypergraph, with isolated nodes, singleton hyperedges, node and hyperedge metadata; per source EVERY node "
-        "subset (as a shuffled list, some with repetitions), EVERY subset of sizes {1..5} as sizes= and as orders= with both "
+        "set_*_metadata, set_attr_*, set_incidence_metadata / in-place edits of an incidence dict, add_empty_edge, "
+        "set_hypergraph_metadata, set_attr_to_hypergraph_metadata) on 3-6 nodes (int, shifted-int or str labels), weighted and "
+        "unweighted, Hypergraph and DirectedHypergraph, with isolated nodes, singleton hyperedges, node, hyperedge, incidence "
+        "and hypergraph metadata, empty edges; 'extended' sources whose history also has remove_node(keep_edges), clear, "
+        "add_nodes (oracles only, no model); 'component layout' sources: 2 or 3 connected components (w.r.t. no filter, "
+        "size 2 or size 3) of prescribed nearly equal sizes (k,k+1 / k,k / k,k,k+1 / ...), EVERY order of first appearance of "
+        "the components in the node listing, bridges of other sizes, a temporary bridge removed again, with the largest "
+        "component for no filter / size 1..4 / order 0..3 and the induced sub-hypergraph on every component; a quarter of the "
+        "random sources is reached through copy() in the middle of the history with the original mutated afterwards; per source EVERY node "
+        "subset (as a shuffled list, some with repetitions, some as tuple or set), EVERY subset of sizes {1..5} as sizes= and as orders= with both "
         "keep_nodes (plus lists with repeated sizes), EVERY (order|size in none,1..5 / 0..4, up_to, keep_isolated_nodes) "
-        "combination of get_edges(subhypergraph=True), the largest component for no filter / size 2,3 / order 1,2, and copy() "
-        "followed by random mutations of copy and original; a small malformed stream (order and size together, neither "
+        "combination of get_edges(subhypergraph=True) plus size 0 / order -1, the largest component for no filter / size 0..3 / "
+        "order 0..2, copy() of 2 % of the results, and copy() followed by random mutations of copy and original (equality = "
+        "every public getter incl. incidence metadata, empty edges, matrices, components, serialisation views; same "
+        "accepted/rejected calls as a never-copied object; copy of the mutated copy); a small malformed stream (order and size together, neither "
         "orders nor sizes, a node outside the hypergraph) is compared with the model only.  A case = (source, selection); "
         "distinct by canonical content + selection; non-trivial when the selection keeps >= 1 and drops >= 1 hyperedge "
         "(copy: both mutation lists change something)")
@@ -23,15 +32,20 @@ ASSUMPTIONS = ["hyperedges are duplicate-free node tuples; directed hyperedges h
                "requested node lists are subsets of the source's nodes (the quantifier); lists outside are only compared with the model's rejection"]
 TRUSTED = ["largest_component(size, order) is taken as returned by utils/cc.py (model parameter `comp`); the harness checks with its own "
            "union-find that it is a connected component of maximum size under the filter",
-           "copy.deepcopy semantics (the model's copy is the identity on values)"]
+           "copy.deepcopy semantics (the model's copy is the identity on values)",
+           "empty edges have no public getter: their names are observed by add_empty_edge on a stdlib deepcopy of the object "
+           "(a duplicate name raises), their metadata through the attribute _empty_edges where it exists"]
 BUDGET_S = {"quick": 100, "thorough": 1500}
 
 MD_KEYS = ["a", "b", "c"]
 VAL_POOL = [7, "red", 2.5, [1, 2], {"z": 1}, None, "", -3]
+EMPTY_NAMES = ["e0", 0, ("x", 1)]          # names of empty edges (Hypergraph.add_empty_edge)
+H_WEIGHTED, H_TYPE = 100, 101              # attribute tokens of the constructor's hypergraph metadata (Model/C05.lean)
+TYPE_TOK = {"Hypergraph": 0, "DirectedHypergraph": 1}
 
 
-class _Timeout(Exception):
-    pass
+class _Timeout(BaseException):
+    """not an Exception: the blanket `except Exception` of an observation must not swallow the alarm"""
 
 
 def _alarm(signum, frame):
@@ -103,15 +117,44 @@ def perm_raw(rng, kind, key):
     return [a, b]
 
 
-def gen_ops(rng, kind, weighted, n, present, length, extended=False):
+def gen_aux_op(rng, kind, n, keys, incs):
+    """one operation on incidence metadata / empty edges / hypergraph-level metadata; `incs` = (raw key, node) pairs
+    that received incidence metadata so far (the undirected class stores under the tuple AS GIVEN)"""
+    r = rng.random()
+    if r < 0.50 or (r < 0.70 and not incs):
+        if keys and rng.random() < 0.85:
+            key = rng.choice(keys)
+        else:
+            key = canon_raw(kind, gen_raw(rng, kind, n))
+        raw = perm_raw(rng, kind, key)
+        ms = list(key) if kind == "u" else list(key[0]) + list(key[1])
+        node = rng.choice(ms) if ms and rng.random() < 0.8 else rng.randrange(n)
+        incs.append((raw, node))
+        return ["setim", raw, node, gen_md(rng, 0.15) or []]
+    if r < 0.70:
+        raw, node = rng.choice(incs)
+        if rng.random() < 0.15:
+            raw = perm_raw(rng, kind, canon_raw(kind, raw))     # another spelling of the same hyperedge
+        return ["attri", raw, node, rng.randrange(3), rng.randrange(len(VAL_POOL))]
+    if r < 0.82 and kind == "u":
+        return ["addempty", rng.randrange(len(EMPTY_NAMES)), gen_md(rng, 0.4) or []]
+    if r < 0.90:
+        return ["sethm", gen_md(rng, 0) or []]
+    return ["attrh", rng.randrange(3), rng.randrange(len(VAL_POOL))]
+
+
+def gen_ops(rng, kind, weighted, n, present, length, extended=False, p_aux=0.16, incs=None):
     """random mutations; `present` = set of canonical keys currently in the object (kept up to date as if all
     valid ops are accepted - used only to bias the generator)"""
     ops = []
     present = set(present)
+    incs = [] if incs is None else incs
     for _ in range(length):
         r = rng.random()
         keys = sorted(present)
-        if r < 0.12:
+        if rng.random() < p_aux:
+            ops.append(gen_aux_op(rng, kind, n, keys, incs))
+        elif r < 0.12:
             ops.append(["addnode", rng.randrange(n), gen_md(rng, 0.3)])
         elif r < 0.55 or not keys:
             if keys and rng.random() < 0.3:
@@ -161,9 +204,117 @@ def gen_source(rng):
     for r in rng.sample(range(n), rng.randint(1, n)):
         if rng.random() < 0.7:
             hist.append(["addnode", r, gen_md(rng, 0.25)])
-    hist += gen_ops(rng, kind, weighted, n, set(), rng.randint(3, 14))
+    incs = []
+    hist += gen_ops(rng, kind, weighted, n, set(), rng.randint(3, 14), p_aux=rng.choice([0.0, 0.15, 0.3]), incs=incs)
     rng.shuffle(hist)
-    return {"kind": kind, "weighted": weighted, "labels": gen_labels(rng, n), "history": hist}
+    case = {"kind": kind, "weighted": weighted, "labels": gen_labels(rng, n), "history": hist, "incs": incs}
+    if hist and rng.random() < 0.25:
+        case["copy_at"] = rng.randrange(len(hist))
+        case["junk"] = gen_ops(rng, kind, weighted, n, set(canon_raw(kind, o[1]) for o in hist if o[0] == "addedge"),
+                               rng.randint(2, 6), extended=True, p_aux=0.3, incs=list(incs))
+    return case
+
+
+def gen_source_extended(rng):
+    """a source whose history also removes nodes (with and without keeping their hyperedges), clears the object and
+    adds node batches: outside the model's operations, exercised by the oracles only"""
+    case = gen_source(rng)
+    n = len(case["labels"])
+    hist = list(case["history"])
+    extra = gen_ops(rng, case["kind"], case["weighted"], n, set(), rng.randint(3, 8), extended=True,
+                    incs=case["incs"])
+    for op in extra:
+        if op[0] == "clear" and rng.random() < 0.6:
+            continue
+        hist.insert(rng.randint(len(hist) // 2, len(hist)), op)
+    return {**case, "history": hist, "extended": True}
+
+
+# component layouts: sizes of the connected components (w.r.t. the filter of the mode)
+LAYOUTS = [(1, 2), (2, 3), (3, 4), (1, 1), (2, 2), (3, 3), (1, 3), (2, 4), (4, 5),
+           (1, 1, 2), (1, 2, 2), (2, 2, 3), (2, 3, 3), (1, 1, 1), (2, 2, 2), (1, 2, 3), (3, 3, 4)]
+LCC_FILTERS = [{}] + [{"size": s} for s in (1, 2, 3, 4)] + [{"order": o} for o in (0, 1, 2, 3)]
+
+
+def layout_modes(sizes):
+    """None: components w.r.t. all hyperedges; s: components w.r.t. hyperedges of size s (each component must be
+    connectable by hyperedges of exactly that size)"""
+    return [None, 2] + ([3] if all(x == 1 or x >= 3 for x in sizes) and any(x >= 3 for x in sizes) else [])
+
+
+def gen_layout_source(rng, sizes, perm, mode):
+    """a Hypergraph whose connected components under `mode` have exactly the sizes `sizes`; `perm` is the order in which
+    the components first appear in the node listing (= the order the component search meets them)"""
+    n = sum(sizes)
+    ranks = list(range(n))
+    rng.shuffle(ranks)
+    comps, at = [], 0
+    for sz in sizes:
+        comps.append(ranks[at:at + sz])
+        at += sz
+    weighted = rng.random() < 0.5
+
+    def w():
+        return rng.randint(1, 12) if weighted else None
+
+    edges_of = []                                  # per component: hyperedges that connect it (under the mode)
+    for comp in comps:
+        es = []
+        seen = [comp[0]]
+        rest = comp[1:]
+        rng.shuffle(rest)
+        while rest:
+            size = mode if mode is not None else rng.randint(2, min(4, len(rest) + len(seen)))
+            new = min(len(rest), rng.randint(1, size - 1))
+            old = size - new
+            if old > len(seen):
+                new, old = size - len(seen), len(seen)
+                if new > len(rest):               # cannot happen when len(comp) >= size
+                    new = len(rest)
+            e = rng.sample(seen, old) + rest[:new]
+            rng.shuffle(e)
+            es.append(e)
+            seen += rest[:new]
+            rest = rest[new:]
+        for _ in range(rng.randint(0, 2)):        # more hyperedges inside the component (any size)
+            k = rng.randint(1, min(4, len(comp)))
+            es.append(rng.sample(comp, k))
+        edges_of.append(es)
+    first, tail = [], []
+    for ci in perm:
+        comp, es = comps[ci], edges_of[ci]
+        if es and rng.random() < 0.5:
+            e = es.pop(rng.randrange(len(es)))
+            first.append(["addedge", e, w(), gen_md(rng)])
+        else:
+            first.append(["addnode", rng.choice(comp), gen_md(rng, 0.3)])
+    for ci, comp in enumerate(comps):
+        for e in edges_of[ci]:
+            tail.append(["addedge", e, w(), gen_md(rng)])
+        for r in comp:
+            if len(comp) == 1 or rng.random() < 0.3:
+                tail.append(["addnode", r, gen_md(rng, 0.3)])
+    if mode is not None and len(comps) > 1:       # bridges of sizes outside the filter: other components without it
+        for _ in range(rng.randint(0, 2)):
+            size = rng.choice([s for s in (1, 3, 4, 2) if s != mode and s <= n][:3])
+            e = rng.sample(ranks, size)
+            tail.append(["addedge", e, w(), gen_md(rng)])
+    rng.shuffle(tail)
+    if len(comps) > 1 and rng.random() < 0.5:     # a bridge inside the filter that is removed again
+        a, b = rng.sample(range(len(comps)), 2)
+        size = mode if mode is not None else 2
+        e = [rng.choice(comps[a]), rng.choice(comps[b])]
+        others = [r for r in ranks if r not in e]
+        e += rng.sample(others, min(len(others), size - 2))
+        if len(e) == size and not any(sorted(e) == sorted(o[1]) for o in first + tail if o[0] == "addedge"):
+            i = rng.randint(0, len(tail))
+            j = rng.randint(i, len(tail))
+            tail.insert(j, ["rmedge", list(reversed(e))])
+            tail.insert(i, ["addedge", e, w(), gen_md(rng)])
+    for _ in range(rng.randint(0, 2)):
+        tail.insert(rng.randint(0, len(tail)), gen_aux_op(rng, "u", n, [canon_raw("u", o[1]) for o in tail if o[0] == "addedge"], []))
+    return {"kind": "u", "weighted": weighted, "labels": gen_labels(rng, n), "history": first + tail,
+            "layout": {"sizes": list(sizes), "perm": list(perm), "mode": mode}}
 
 
 # ------------------------------------------------------------------------------------------
@@ -208,6 +359,18 @@ def apply_py(case, h, op):
         return guard(h.set_attr_to_node_metadata, L[op[1]], MD_KEYS[op[2]], _copy.deepcopy(VAL_POOL[op[3]]))
     if t == "attre":
         return guard(h.set_attr_to_edge_metadata, py_key(case, op[1]), MD_KEYS[op[2]], _copy.deepcopy(VAL_POOL[op[3]]))
+    if t == "setim":
+        return guard(h.set_incidence_metadata, py_key(case, op[1]), L[op[2]], py_md(op[3]))
+    if t == "attri":
+        def edit():
+            h.get_incidence_metadata(py_key(case, op[1]), L[op[2]])[MD_KEYS[op[3]]] = _copy.deepcopy(VAL_POOL[op[4]])
+        return guard(edit)
+    if t == "addempty":
+        return guard(h.add_empty_edge, EMPTY_NAMES[op[1]], py_md(op[2]))
+    if t == "sethm":
+        return guard(h.set_hypergraph_metadata, py_md(op[1]))
+    if t == "attrh":
+        return guard(h.set_attr_to_hypergraph_metadata, MD_KEYS[op[1]], _copy.deepcopy(VAL_POOL[op[2]]))
     if t == "rmnode":
         return guard(h.remove_node, L[op[1]], op[2])
     if t == "clear":
@@ -249,6 +412,16 @@ def model_line(case, slot, op):
         return f"{k} attrn {slot} {op[1]} {op[2]} {op[3]}"
     if t == "attre":
         return f"{k} attre {slot} {w_key(k, op[1])} {op[2]} {op[3]}"
+    if t == "setim":
+        return f"{k} setim {slot} {w_key(k, op[1])} {op[2]} {w_md(op[3])}"
+    if t == "attri":
+        return f"{k} attri {slot} {w_key(k, op[1])} {op[2]} {op[3]} {op[4]}"
+    if t == "addempty":
+        return f"{k} addempty {slot} {op[1]} {w_md(op[2])}"
+    if t == "sethm":
+        return f"{k} sethm {slot} {w_md(op[1])}"
+    if t == "attrh":
+        return f"{k} attrh {slot} {op[1]} {op[2]}"
     raise ValueError(t)
 
 
@@ -259,8 +432,48 @@ def members(kind, key):
     return tuple(key) if kind == "u" else tuple(key[0]) + tuple(key[1])
 
 
+def empty_edge_names(h):
+    """names of the empty edges: no getter exists, so add_empty_edge is tried on a stdlib deepcopy (a name that is
+    already there raises).  None when the class has no empty edges (DirectedHypergraph)"""
+    if not hasattr(h, "add_empty_edge"):
+        return None
+    probe = _copy.deepcopy(h)
+    out = []
+    for name in EMPTY_NAMES:
+        try:
+            probe.add_empty_edge(name, {})
+        except Exception:  # noqa: BLE001
+            out.append(name)
+    return out
+
+
+def aux_of(h):
+    """incidence metadata (listing order), empty edges [(name, md | None)], hypergraph-level metadata"""
+    inc = h.get_all_incidences_metadata()
+    if not isinstance(inc, dict):
+        raise AssertionError("get_all_incidences_metadata() is not a dict")
+    for (e, n), md in inc.items():
+        if h.check_edge(e) and h.get_incidence_metadata(e, n) != md:
+            raise AssertionError(f"get_incidence_metadata({e!r}, {n!r}) disagrees with get_all_incidences_metadata()")
+    names = empty_edge_names(h)
+    empty = []
+    if names is not None:
+        priv = getattr(h, "_empty_edges", None)
+        if isinstance(priv, dict):
+            if set(priv) != set(names):
+                raise AssertionError("add_empty_edge accepts/rejects names against the stored empty edges")
+            empty = [(k, v) for k, v in priv.items()]
+        else:
+            empty = [(k, None) for k in names]
+    hm = h.get_hypergraph_metadata()
+    if not isinstance(hm, dict):
+        raise AssertionError("get_hypergraph_metadata() is not a dict")
+    return {"inc": dict(inc), "empty": empty, "hmeta": dict(hm)}
+
+
 def snap(h):
-    """content of an object as the public API shows it: (weighted, {node: md}, {key: (weight, md)}) or ('exc', why)"""
+    """content of an object as the public API shows it: (weighted, {node: md}, {key: (weight, md)}, aux) or ('exc', why);
+    aux = incidence metadata, empty edges, hypergraph-level metadata (see aux_of)"""
     def f():
         nodes = h.get_nodes(metadata=True)
         lst = list(h.get_nodes())
@@ -277,7 +490,7 @@ def snap(h):
         for n in lst:
             if h.get_node_metadata(n) != nodes[n]:
                 raise AssertionError(f"get_node_metadata({n!r}) disagrees with get_nodes(metadata=True)")
-        return (bool(h.is_weighted()), dict(nodes), {k: (ws[k], em[k]) for k in keys})
+        return (bool(h.is_weighted()), dict(nodes), {k: (ws[k], em[k]) for k in keys}, aux_of(h))
     st, v = guard(f)
     return v if st == "ok" else ("exc", v)
 
@@ -317,13 +530,30 @@ def canon(x):
     return x if isinstance(x, (int, str, bool, type(None), float)) else repr(x)
 
 
-def full_digest(kind, h):
-    """every public query of the object (listing order kept, sets sorted); exceptions are observations"""
+def full_digest(kind, h, deep=0):
+    """every public query of the object (listing order kept, sets sorted); exceptions are observations.
+    deep=1 adds components, serialisation views, filtered per-node queries, the empty-edge probe; deep=2 also the
+    matrices and the label mapping.  One alarm for the whole digest (a hang is an observation)."""
+    st, v = guard(_full_digest, kind, h, deep)
+    return v if st == "ok" else {"digest": ("exc", v)}
+
+
+def _try(fn, *a, **k):
+    try:
+        return ("ok", fn(*a, **k))
+    except Exception as e:  # noqa: BLE001
+        return ("exc", type(e).__name__ + ": " + str(e)[:80])
+
+
+def _full_digest(kind, h, deep):
     d = {}
+    guard = _try                        # no nested alarms inside the digest
 
     def q(name, fn, *a, **k):
-        st, v = guard(fn, *a, **k)
-        d[name] = canon(v) if st == "ok" else ("exc", v.split(":")[0])
+        try:
+            d[name] = canon(fn(*a, **k))
+        except Exception as e:  # noqa: BLE001
+            d[name] = ("exc", type(e).__name__)
 
     q("nodes", h.get_nodes)
     q("nodes_md", h.get_nodes, metadata=True)
@@ -379,7 +609,52 @@ def full_digest(kind, h):
         q(f"w{e!r}", h.get_weight, e)
         q(f"em{e!r}", h.get_edge_metadata, e)
         q(f"ce{e!r}", h.check_edge, e)
+    st, inc = guard(h.get_all_incidences_metadata)
+    for key in (list(inc) if st == "ok" and isinstance(inc, dict) else []):
+        if isinstance(key, tuple) and len(key) == 2:
+            q(f"im{key!r}", h.get_incidence_metadata, key[0], key[1])
+    q("empty_private", lambda: getattr(h, "_empty_edges", "n/a"))
+    if not deep:
+        return d
+    q("empty_names", empty_edge_names, h)
+    q("hashing", h.expose_attributes_for_hashing)
+    q("structures", h.expose_data_structures)
+    q("degdist", h.degree_distribution)
+    q("isolated_d", h.isolated_nodes)
+    for s in (1, 2, 3):
+        q(f"degseq_s{s}", h.degree_sequence, size=s)
+        q(f"isolated_s{s}", h.isolated_nodes, size=s)
+    if kind == "u":
+        q("cc", h.connected_components)
+        q("connected", h.is_connected)
+        for flt in ({}, {"size": 2}, {"size": 3}, {"order": 1}):
+            q(f"lcc{flt}", h.largest_component, **flt)
+            q(f"lccsize{flt}", h.largest_component_size, **flt)
+            q(f"ncc{flt}", h.num_connected_components, **flt)
+    if deep >= 2:
+        q("mapping", lambda: list(h.get_mapping().classes_))
+        if kind == "u":
+            q("inc_matrix", lambda: _matrix(h.incidence_matrix(return_mapping=True)))
+            q("bin_inc_matrix", lambda: _matrix(h.binary_incidence_matrix(return_mapping=True)))
+            q("adj_matrix", lambda: _matrix(h.adjacency_matrix(return_mapping=True)))
+    st, nodes = guard(h.get_nodes)
+    for n in (nodes if st == "ok" else []):
+        q(f"iso{n!r}", h.is_isolated, n)
+        for s in (1, 2, 3):
+            q(f"nb{n!r}s{s}", h.get_neighbors, n, size=s)
+            q(f"inc{n!r}o{s}", h.get_incident_edges, n, order=s)
+            q(f"deg{n!r}s{s}", h.degree, n, size=s)
+        if kind == "u":
+            q(f"ncomp{n!r}", h.node_connected_component, n)
     return d
+
+
+def _matrix(r):
+    m, mp = r
+    return (m.toarray().tolist(), mp)
+
+
+DEEP2 = ("mapping", "inc_matrix", "bin_inc_matrix", "adj_matrix")
 
 
 def digest_diff(a, b):
@@ -399,8 +674,39 @@ def tok_md(md):
     return tuple(sorted(out, key=repr))
 
 
+def tok_hmeta(md):
+    out = []
+    for k, v in md.items():
+        if k == "weighted" and isinstance(v, bool):
+            out.append((H_WEIGHTED, int(v)))
+        elif k == "type" and v in TYPE_TOK:
+            out.append((H_TYPE, TYPE_TOK[v]))
+        else:
+            out.append((MD_KEYS.index(k) if k in MD_KEYS else repr(k), VAL_POOL.index(v) if v in VAL_POOL else repr(v)))
+    return tuple(sorted(out, key=repr))
+
+
+def tok_aux(case, aux):
+    """-> ([((key ranks, node rank), md tokens)] in listing order, [(name index, md tokens)], hypergraph md tokens)"""
+    rk = {x: i for i, x in enumerate(case["labels"])}
+    f = lambda xs: tuple(rk.get(x, repr(x)) for x in xs) if isinstance(xs, tuple) else repr(xs)  # noqa: E731
+    inc = []
+    for key, md in aux["inc"].items():
+        if not (isinstance(key, tuple) and len(key) == 2):
+            inc.append((repr(key), tok_md(md)))
+            continue
+        e, n = key
+        if case["kind"] == "u":
+            ek = f(e)
+        else:
+            ek = (f(e[0]), f(e[1])) if isinstance(e, tuple) and len(e) == 2 else repr(e)
+        inc.append(((ek, rk.get(n, repr(n))), tok_md(md)))
+    empty = [(EMPTY_NAMES.index(k) if k in EMPTY_NAMES else repr(k), "?" if md is None else tok_md(md)) for k, md in aux["empty"]]
+    return (inc, empty, tok_hmeta(aux["hmeta"]))
+
+
 def tok_snap(case, s):
-    """python content -> (weighted, {rank: md tokens}, {rank key: (quanta, md tokens)})"""
+    """python content -> (weighted, {rank: md tokens}, {rank key: (quanta, md tokens)}, aux tokens)"""
     if s[0] == "exc":
         return s
     L = case["labels"]
@@ -416,18 +722,18 @@ def tok_snap(case, s):
         except Exception:  # noqa: BLE001
             q = repr(w)
         edges[kk] = (q, tok_md(md))
-    return (s[0], nodes, edges)
+    return (s[0], nodes, edges, tok_aux(case, s[3]))
 
 
 def parse_model(kind, line):
-    """`w|n:md;...|key=w=md;...` -> same shape as tok_snap"""
+    """`w|n:md;...|key=w=md;...|key@n=md;...|name=md;...|md` -> same shape as tok_snap"""
     def md(t):
-        return () if t == "-" else tuple(sorted(tuple(int(x) for x in p.split(":")) for p in t.split(",")))
+        return () if t == "-" else tuple(sorted((tuple(int(x) for x in p.split(":")) for p in t.split(",")), key=repr))
 
     def ints(t):
         return () if t == "_" else tuple(int(x) for x in t.split(","))
     try:
-        w, ns, es = line.split("|")
+        w, ns, es, ims, ees, hm = line.split("|")
         nodes = {}
         if ns != "~":
             for item in ns.split(";"):
@@ -439,7 +745,19 @@ def parse_model(kind, line):
                 k, q, m = item.split("=")
                 kk = ints(k) if kind == "u" else tuple(ints(p) for p in k.split(">"))
                 edges[kk] = (int(q), md(m))
-        return (w == "1", nodes, edges)
+        inc = []
+        if ims != "~":
+            for item in ims.split(";"):
+                k, m = item.split("=")
+                k, n = k.split("@")
+                kk = ints(k) if kind == "u" else tuple(ints(p) for p in k.split(">"))
+                inc.append(((kk, int(n)), md(m)))
+        empty = []
+        if ees != "~":
+            for item in ees.split(";"):
+                k, m = item.split("=")
+                empty.append((int(k), md(m)))
+        return (w == "1", nodes, edges, (inc, empty, md(hm)))
     except Exception:  # noqa: BLE001
         return ("unparsable", line)
 
@@ -458,7 +776,10 @@ def all_selections(rng, case, n_nodes_present, tier_full=True):
                 rng.shuffle(lst)
                 if lst and rng.random() < 0.1:
                     lst.append(rng.choice(lst))
-                sels.append({"f": "induced", "nodes": lst})
+                sel = {"f": "induced", "nodes": lst}
+                if rng.random() < 0.12:
+                    sel["as"] = rng.choice(["tuple", "set"])      # other containers than a list
+                sels.append(sel)
         for r in range(6):
             for sub in itertools.combinations([1, 2, 3, 4, 5], r):
                 lst = list(sub)
@@ -467,10 +788,10 @@ def all_selections(rng, case, n_nodes_present, tier_full=True):
                     sels.append({"f": "bysizes", "sizes": lst, "keep": keep})
                     sels.append({"f": "byorders", "orders": [s - 1 for s in lst], "keep": keep})
         for _ in range(6):
-            lst = [rng.randint(1, 4) for _ in range(rng.randint(2, 5))]
-            sels.append({"f": "bysizes", "sizes": lst, "keep": rng.random() < 0.5})
+            lst = [rng.randint(0, 4) for _ in range(rng.randint(2, 5))]    # repetitions, size 0 / order -1 (nothing has it)
+            sels.append({"f": "bysizes", "sizes": lst, "keep": rng.random() < 0.5, "as": rng.choice(["list", "tuple"])})
             sels.append({"f": "byorders", "orders": [s - 1 for s in lst], "keep": rng.random() < 0.5})
-        for flt in ({}, {"size": 2}, {"size": 3}, {"order": 1}, {"order": 2}):
+        for flt in ({}, {"size": 2}, {"size": 3}, {"order": 1}, {"order": 2}, {"order": 0}, {"size": 1}, {"size": 0}):
             sels.append({"f": "lcc", **flt})
         # malformed (model comparison only)
         sels.append({"f": "bysizes", "sizes": None, "keep": True, "malformed": True})
@@ -484,7 +805,29 @@ def all_selections(rng, case, n_nodes_present, tier_full=True):
             for s in (1, 2, 3, 4, 5):
                 sels.append({"f": "edges", "size": s, "up_to": up_to, "keep": keep})
                 sels.append({"f": "edges", "order": s - 1, "up_to": up_to, "keep": keep})
+    for up_to in (False, True):          # the falsy size / the order below every hyperedge
+        sels.append({"f": "edges", "size": 0, "up_to": up_to, "keep": rng.random() < 0.5})
+        sels.append({"f": "edges", "order": -1, "up_to": up_to, "keep": rng.random() < 0.5})
     sels.append({"f": "edges", "size": 2, "order": 1, "up_to": False, "keep": True, "malformed": True})
+    return sels
+
+
+def layout_selections(rng, case, present, S):
+    """component-layout sources: the largest component under every filter, the induced sub-hypergraph on every connected
+    component (a node selection that is exactly the node set of its hyperedges), a few size selections"""
+    sels = [{"f": "lcc", **flt} for flt in LCC_FILTERS]
+    L = case["labels"]
+    rk = {x: i for i, x in enumerate(L)}
+    for flt in ({}, {"size": 2}, {"size": 3}):
+        for comp in components(case["kind"], S, flt):
+            lst = [rk[x] for x in comp]
+            rng.shuffle(lst)
+            sel = {"f": "induced", "nodes": lst}
+            if sel not in sels:
+                sels.append(sel)
+    for s_ in (1, 2, 3):
+        sels.append({"f": "bysizes", "sizes": [s_], "keep": rng.random() < 0.5})
+        sels.append({"f": "edges", "size": s_, "up_to": rng.random() < 0.5, "keep": rng.random() < 0.5})
     return sels
 
 
@@ -492,9 +835,17 @@ def call_selection(case, h, sel):
     L = case["labels"]
     f = sel["f"]
     if f == "induced":
-        return guard(h.subhypergraph, [L[r] for r in sel["nodes"]])
+        arg = [L[r] for r in sel["nodes"]]
+        if sel.get("as") == "tuple":
+            arg = tuple(arg)
+        elif sel.get("as") == "set":
+            arg = set(arg)
+            rk = {x: i for i, x in enumerate(L)}
+            sel["_iter"] = [rk[x] for x in arg]          # the order in which the code will meet the nodes
+        return guard(h.subhypergraph, arg)
     if f == "bysizes" and "orders" not in sel:
-        return guard(h.subhypergraph_by_orders, sizes=None if sel["sizes"] is None else list(sel["sizes"]), keep_nodes=sel["keep"])
+        cont = tuple if sel.get("as") == "tuple" else list
+        return guard(h.subhypergraph_by_orders, sizes=None if sel["sizes"] is None else cont(sel["sizes"]), keep_nodes=sel["keep"])
     if f in ("byorders", "bysizes"):
         return guard(h.subhypergraph_by_orders, orders=list(sel["orders"]),
                      sizes=(list(sel["sizes"]) if sel.get("sizes") is not None else None), keep_nodes=sel["keep"])
@@ -510,7 +861,7 @@ def expected(case, S, sel, comp=None):
     """the property's words on the content S = (weighted, nodes, edges) of the source"""
     kind = case["kind"]
     L = case["labels"]
-    _, nodes, edges = S
+    nodes, edges = S[1], S[2]
     size = lambda k: len(members(kind, k))  # noqa: E731
     f = sel["f"]
     if f in ("induced", "lcc"):
@@ -534,9 +885,9 @@ def expected(case, S, sel, comp=None):
     return (S[0], {n: nodes[n] for n in used}, keep)
 
 
-def largest_components(kind, S, sel):
-    """all connected components of maximum size of the source restricted to the hyperedges passing the filter"""
-    _, nodes, edges = S
+def components(kind, S, sel):
+    """the connected components of the source restricted to the hyperedges passing the filter (own union-find)"""
+    nodes, edges = S[1], S[2]
     s = sel.get("size") if sel.get("size") is not None else (sel["order"] + 1 if sel.get("order") is not None else None)
     parent = {n: n for n in nodes}
 
@@ -553,8 +904,14 @@ def largest_components(kind, S, sel):
     comps = {}
     for n in nodes:
         comps.setdefault(find(n), set()).add(n)
-    best = max((len(c) for c in comps.values()), default=0)
-    return [c for c in comps.values() if len(c) == best]
+    return list(comps.values())
+
+
+def largest_components(kind, S, sel):
+    """all connected components of maximum size under the filter"""
+    comps = components(kind, S, sel)
+    best = max((len(c) for c in comps), default=0)
+    return [c for c in comps if len(c) == best]
 
 
 def model_selection(case, sel, comp_ranks=None):
@@ -562,7 +919,7 @@ def model_selection(case, sel, comp_ranks=None):
     f = sel["f"]
     ints = lambda xs: hgxv.enc_list(xs)  # noqa: E731
     if f == "induced":
-        return f"{k} induced 0 1 {ints(sel['nodes'])}"
+        return f"{k} induced 0 1 {ints(sel.get('_iter', sel['nodes']))}"
     if f == "lcc":
         return f"{k} lcc 0 1 {ints(comp_ranks)}"
     if f in ("bysizes", "byorders"):
@@ -576,15 +933,40 @@ def model_selection(case, sel, comp_ranks=None):
 # one source: build, all selections, copy rounds
 
 def build(case, ops=None):
+    """realise a history.  With case["copy_at"] = k the object is replaced by its copy() after k operations and the
+    original is mutated by case["junk"] afterwards: the rest of the history (and everything the check does) then runs on
+    a COPY whose original changed - for the model a copy is the same value, so nothing changes there"""
     h = new_object(case)
     outs = []
-    for op in (case["history"] if ops is None else ops):
+    for i, op in enumerate(case["history"] if ops is None else ops):
+        if case.get("copy_at") == i:
+            st, c = guard(h.copy)
+            if st == "ok" and c is not None:
+                for j in case.get("junk", []):
+                    apply_py(case, h, j)
+                h = c
         outs.append(apply_py(case, h, op)[0])
     return h, outs
 
 
 def src_key(case, S):
-    return repr((case["kind"], S[0], sorted(S[1].items(), key=repr), sorted(S[2].items(), key=repr))) if S[0] != "exc" else repr(S)
+    if S[0] == "exc":
+        return repr(S)
+    return repr((case["kind"], S[0], sorted(S[1].items(), key=repr), sorted(S[2].items(), key=repr),
+                 sorted(S[3]["inc"].items(), key=repr), S[3]["empty"], sorted(S[3]["hmeta"].items(), key=repr)))
+
+
+def rank_keys(case, S):
+    """canonical rank keys of the hyperedges of the content S (for the mutation generator)"""
+    rk = {x: i for i, x in enumerate(case["labels"])}
+    out = set()
+    for k in S[2]:
+        try:
+            out.add(tuple(sorted(rk[x] for x in k)) if case["kind"] == "u" else
+                    (tuple(sorted(rk[x] for x in k[0])), tuple(sorted(rk[x] for x in k[1]))))
+        except Exception:  # noqa: BLE001
+            pass
+    return out
 
 
 def check_source(ctx, drv, case, only=None):
@@ -598,7 +980,8 @@ def check_source(ctx, drv, case, only=None):
         ctx.violation({**case, "sel": None}, f"exception while exercising the implementation: RuntimeError: {e}")
     except Exception as e:  # noqa: BLE001
         import traceback
-        tb = traceback.extract_tb(e.__traceback__)[-1]
+        tbs = traceback.extract_tb(e.__traceback__)
+        tb = ([t for t in tbs if t.filename.endswith("c05.py")] or tbs)[-1]
         ctx.violation({**case, "sel": None},
                       f"exception while exercising the implementation: {type(e).__name__}: {str(e)[:120]} ({tb.name}:{tb.lineno})")
     if TIMEOUTS[0] >= 3:
@@ -613,23 +996,39 @@ def _check_source(ctx, drv, case, only=None):
     if S[0] == "exc":
         ctx.violation({**case, "sel": None}, "the source cannot be observed through the public API: " + str(S[1]))
         return
-    lines = [f"{kind} new 0 {int(case['weighted'])}"] + [model_line(case, 0, op) for op in case["history"]] + [f"{kind} q 0"]
-    want = ["ok"] + [("ok" if o == "ok" else "rej") for o in outs] + [tok_snap(case, S)]
+    modelled = not case.get("extended")
+    if modelled:
+        lines = [f"{kind} new 0 {int(case['weighted'])}"] + [model_line(case, 0, op) for op in case["history"]] + [f"{kind} q 0"]
+        want = ["ok"] + [("ok" if o == "ok" else "rej") for o in outs] + [tok_snap(case, S)]
+    else:
+        lines, want = [], []
     tags = [("build", None)] * len(lines)
     present = [r for r, x in enumerate(L) if x in S[1]]
     if only is None:
-        sels = all_selections(ctx.rng, case, present)
-        copies = [{"f": "copy", "ops_cp": gen_ops(ctx.rng, kind, S[0], len(L), set(), ctx.rng.randint(1, 6)),
-                   "ops_orig": gen_ops(ctx.rng, kind, S[0], len(L), set(), ctx.rng.randint(1, 6)),
-                   "order": [ctx.rng.random() < 0.5 for _ in range(12)]} for _ in range(2)]
-        copies.append({"f": "copy", "extended": True,
-                       "ops_cp": gen_ops(ctx.rng, kind, S[0], len(L), set(), ctx.rng.randint(2, 6), extended=True),
-                       "ops_orig": gen_ops(ctx.rng, kind, S[0], len(L), set(), ctx.rng.randint(2, 6), extended=True),
-                       "order": []})
+        rng = ctx.rng
+        if case.get("layout"):
+            sels = layout_selections(rng, case, present, S)
+        else:
+            sels = all_selections(rng, case, present)
+        for sel in sels:
+            if not sel.get("malformed") and rng.random() < 0.02:
+                sel["copy_result"] = True
+        pk = rank_keys(case, S)
+        incs = [list(x) for x in case.get("incs", [])]
+
+        def ops(ext=False):
+            return gen_ops(rng, kind, S[0], len(L), pk if rng.random() < 0.7 else set(), rng.randint(2 if ext else 1, 6),
+                           extended=ext, p_aux=rng.choice([0.1, 0.35]), incs=list(incs))
+        copies = [{"f": "copy", "ops_cp": ops(), "ops_orig": ops(),
+                   "order": [rng.random() < 0.5 for _ in range(12)]}
+                  for _ in range((1 if rng.random() < 0.3 else 0) if case.get("layout") else 2)]
+        if not case.get("layout"):
+            copies.append({"f": "copy", "extended": True, "ops_cp": ops(True), "ops_orig": ops(True), "order": []})
     else:
         sels = [s for s in only if s.get("f") != "copy"]
         copies = [s for s in only if s.get("f") == "copy"]
     before = full_digest(kind, h)
+    deep_before = full_digest(kind, h, deep=2)
     skey = src_key(case, S)
     for sel in sels:
         full = {**case, "sel": sel}
@@ -652,6 +1051,17 @@ def _check_source(ctx, drv, case, only=None):
             if got[0] == "exc":
                 ctx.violation(full, f"{sel}: the result cannot be observed: {got[1]}")
                 got = None
+        if st == "ok" and got is not None and sel.get("copy_result"):
+            # the extracted object is an object like any other: its copy is equal to it
+            d_r = full_digest(kind, r, deep=2)
+            stc2, rc = guard(r.copy)
+            if stc2 != "ok":
+                ctx.violation(full, f"copy() of the result of {sel} raised {rc}")
+            else:
+                dd = digest_diff(d_r, full_digest(kind, rc, deep=2))
+                if dd:
+                    ctx.violation(full, f"copy() of the result of {sel} is not equal to it: {dd}")
+            ctx.count("copies_of_results")
         if not malformed:
             if st != "ok":
                 if not (sel["f"] == "lcc" and not S[1]):       # largest component of the empty hypergraph: max() of nothing
@@ -684,8 +1094,11 @@ def _check_source(ctx, drv, case, only=None):
         ctx.count("sel_" + sel["f"] + ("_malformed" if malformed else ""))
         if st != "ok":
             ctx.count("rejected_selections")
+        if case.get("layout") and sel["f"] == "lcc" and comp is not None:
+            sizes = sorted(len(c) for c in components(kind, S, sel))
+            ctx.count("lcc_layout_" + ("tie" if sizes[-2:-1] == sizes[-1:] else "gap1" if sizes[-2:-1] == [sizes[-1] - 1] else "other"))
         # model
-        if sel["f"] == "lcc" and comp is None:
+        if not modelled or (sel["f"] == "lcc" and comp is None):
             continue
         rk = {x: i for i, x in enumerate(L)}
         lines.append(model_selection(case, sel, [rk[x] for x in comp] if comp is not None else None))
@@ -701,10 +1114,14 @@ def _check_source(ctx, drv, case, only=None):
         if ctx.too_many() or TIMEOUTS[0] >= 3:
             break
 
+    dd = digest_diff(deep_before, full_digest(kind, h, deep=2))
+    if dd:
+        ctx.violation({**case, "sel": None}, f"the extractions changed the source: {dd}")
     for cp in copies:
         check_copy(ctx, case, h, S, cp, lines, want, tags, skey)
+    ctx.count("sources_" + ("layout" if case.get("layout") else "extended" if case.get("extended") else "modelled"))
 
-    if drv is None:
+    if drv is None or not modelled:
         return
     ans = drv.batch(lines)
     for ln, a, w, (tag, full) in zip(lines, ans, want, tags):
@@ -712,6 +1129,7 @@ def _check_source(ctx, drv, case, only=None):
         same = got == w
         if same and not isinstance(w, str) and w[0] != "exc":
             # the model mirrors the construction order of the code: listings must also agree as sequences
+            # (incidence metadata and empty edges are compared as sequences already)
             same = list(got[1]) == list(w[1]) and list(got[2]) == list(w[2])
             if not same:
                 ctx.count("order_only_differences")
@@ -726,7 +1144,7 @@ def check_copy(ctx, case, h, S, cp, lines, want, tags, skey):
     kind = case["kind"]
     full = {**case, "sel": cp}
     orig, _ = build(case)
-    d0 = full_digest(kind, orig)
+    d0 = full_digest(kind, orig, deep=2)
     st, c = guard(orig.copy)
     if st != "ok":
         ctx.violation(full, f"copy() raised {c}")
@@ -734,10 +1152,11 @@ def check_copy(ctx, case, h, S, cp, lines, want, tags, skey):
     if c is orig or type(c) is not type(orig):
         ctx.violation(full, "copy() returned the object itself / another type")
         return
-    dd = digest_diff(d0, full_digest(kind, c))
+    dd = digest_diff(d0, full_digest(kind, c, deep=2))
     if dd:
         ctx.violation(full, f"copy() is not equal to the original: {dd}")
-    dd = digest_diff(d0, full_digest(kind, orig))
+    d0 = {k: v for k, v in d0.items() if k not in DEEP2}
+    dd = digest_diff(d0, full_digest(kind, orig, deep=1))
     if dd:
         ctx.violation(full, f"copy() changed the original: {dd}")
     # (1) mutate the copy only -> original as before
@@ -745,26 +1164,39 @@ def check_copy(ctx, case, h, S, cp, lines, want, tags, skey):
     outs_cp = []
     for op in cp["ops_cp"]:
         outs_cp.append(apply_py(case, c, op)[0])
-    d_cp = full_digest(kind, c)
+    d_cp = full_digest(kind, c, deep=1)
     changed_cp = digest_diff(d0, d_cp) is not None
-    dd = digest_diff(d0, full_digest(kind, orig))
+    dd = digest_diff(d0, full_digest(kind, orig, deep=1))
     if dd:
         ctx.violation(full, f"mutating the copy ({cp['ops_cp']}) changed the original: {dd}")
     # (2) mutate the original only -> copy as before
     outs_orig = []
     for op in cp["ops_orig"]:
         outs_orig.append(apply_py(case, orig, op)[0])
-    d_orig = full_digest(kind, orig)
+    d_orig = full_digest(kind, orig, deep=1)
     changed_orig = digest_diff(d0, d_orig) is not None
-    dd = digest_diff(d_cp, full_digest(kind, c))
+    dd = digest_diff(d_cp, full_digest(kind, c, deep=1))
     if dd:
         ctx.violation(full, f"mutating the original ({cp['ops_orig']}) changed the copy: {dd}")
-    # (3) each equals a never-copied object with the same history
-    for name, obj_d, ops in (("original", d_orig, cp["ops_orig"]), ("copy", d_cp, cp["ops_cp"])):
-        ref, _ = build(case, case["history"] + ops)
-        dd = digest_diff(full_digest(kind, ref), obj_d)
+    # (3) each equals a never-copied object with the same history, and accepted / rejected the same calls
+    for name, obj_d, ops, outs in (("original", d_orig, cp["ops_orig"], outs_orig), ("copy", d_cp, cp["ops_cp"], outs_cp)):
+        ref, routs = build(case, case["history"] + ops)
+        dd = digest_diff(full_digest(kind, ref, deep=1), obj_d)
         if dd:
             ctx.violation(full, f"the {name} after its mutations differs from a never-copied object with the same history: {dd}")
+        routs = routs[len(case["history"]):]
+        if routs != outs:
+            i = [a == b for a, b in zip(routs, outs)].index(False)
+            ctx.violation(full, f"the {name} {'accepted' if outs[i] == 'ok' else 'rejected'} {ops[i]} which a never-copied object "
+                                f"with the same history {'accepted' if routs[i] == 'ok' else 'rejected'}")
+    # (4) a copy of the (mutated) copy equals it
+    st2, c2 = guard(c.copy)
+    if st2 != "ok":
+        ctx.violation(full, f"copy() of the mutated copy raised {c2}")
+    else:
+        dd = digest_diff(d_cp, full_digest(kind, c2, deep=1))
+        if dd:
+            ctx.violation(full, f"the copy of the mutated copy is not equal to it: {dd}")
     ctx.case(skey + repr(sorted(cp.items(), key=repr)), changed_cp and changed_orig, sample=None)
     ctx.count("sel_copy" + ("_extended" if cp.get("extended") else ""))
     if cp.get("extended"):
@@ -806,19 +1238,57 @@ FIXED_SOURCES = [
      "history": [["addnode", 4, [[2, 0]]], ["addnode", 0, [[0, 0]]], ["addedge", [[0], [1]], 20, [[1, 1]]],
                  ["addedge", [[1, 2], [3]], 28, [[1, 2]]]]},
     {"kind": "u", "weighted": False, "labels": ["A", "B", "C"], "history": []},
+    # incidence metadata (one stored under an unsorted tuple, one of a hyperedge removed afterwards), empty edges,
+    # hypergraph-level metadata
+    {"kind": "u", "weighted": True, "labels": ["a", "b", "c", "d", "iso"], "incs": [[[1, 0, 2], 0], [[1, 3], 3]],
+     "history": [["addnode", 4, [[0, 1]]], ["addedge", [0, 1, 2], 10, [[1, 1]]], ["addedge", [1, 3], 2, None],
+                 ["addedge", [2], 28, None], ["setim", [1, 0, 2], 0, [[0, 0]]], ["setim", [1, 3], 3, [[1, 1]]],
+                 ["setim", [2], 2, []], ["rmedge", [2]], ["addempty", 0, [[2, 3]]], ["addempty", 2, []],
+                 ["attrh", 0, 4], ["attri", [1, 0, 2], 0, 2, 5]]},
+    {"kind": "d", "weighted": False, "labels": [3, 5, 8, 13], "incs": [[[[1], [0, 2]], 2]],
+     "history": [["addedge", [[1], [2, 0]], None, [[0, 0]]], ["addedge", [[3], [1]], None, None],
+                 ["setim", [[1], [0, 2]], 2, [[0, 6]]], ["setim", [[3], [1]], 0, []], ["sethm", [[1, 1]]], ["attrh", 2, 0]]},
 ]
+
+
+def layout_grid(rng, rounds, all_modes):
+    """every layout x every order of first appearance x every mode (quick: for three components one mode drawn per
+    layout and order), `rounds` times (fresh random details each time)"""
+    out = []
+    for _ in range(rounds):
+        for sizes in LAYOUTS:
+            for perm in itertools.permutations(range(len(sizes))):
+                modes = layout_modes(sizes)
+                for mode in (modes if all_modes or len(sizes) == 2 else [rng.choice(modes)]):
+                    out.append((sizes, perm, mode))
+    return out
 
 
 def run(ctx):
     drv = ctx.driver() if ctx.model_available else None
-    n = ctx.scale(30, 600)
+    n = ctx.scale(26, 520)
+    n_ext = ctx.scale(6, 120)
+    grid = layout_grid(ctx.rng, ctx.scale(1, 4), ctx.tier != "quick")
+
+    def stop():
+        return ctx.too_many() or TIMEOUTS[0] >= 3 or (ctx.time_left() is not None and ctx.time_left() < 15)
     for case in FIXED_SOURCES:
-        if not ctx.too_many() and TIMEOUTS[0] < 3:
+        if not stop():
             check_source(ctx, drv, case)
-    for _ in range(n):
-        if ctx.too_many() or TIMEOUTS[0] >= 3 or (ctx.time_left() is not None and ctx.time_left() < 15):
+    # interleave the three classes so that a run cut short by the budget has seen all of them
+    gi = 0
+    per = max(1, -(-len(grid) // max(1, n)))
+    for i in range(n):
+        if stop():
             break
         check_source(ctx, drv, gen_source(ctx.rng))
+        if i < n_ext * 4 and i % 4 == 0 and not stop():
+            check_source(ctx, drv, gen_source_extended(ctx.rng))
+        for sizes, perm, mode in grid[gi:gi + per]:
+            if stop():
+                break
+            check_source(ctx, drv, gen_layout_source(ctx.rng, sizes, perm, mode))
+        gi += per
 
 
 def replay(ctx, case):
